@@ -93,7 +93,7 @@ class C18(Prop):
                     if i % nshards == shard:
                         yield {"type": t, "history": list(h), "exhaustive": True}
                     i += 1
-        n_rand = {"quick": 4_000, "thorough": 60_000}[tier]
+        n_rand = {"quick": 4_000, "thorough": 400_000}[tier]
         for j in range(n_rand):
             if i % nshards == shard:
                 r = env.rng("C18", seed, j)
